@@ -294,10 +294,15 @@ def ed_section(draw, max_len=64, big=False):
     return s
 
 
+NAMED_IDS = [sid(x) for x in ['PH', 'UH', 'PS', 'SS', 'EH', 'MT', 'LP', 'UD', 'ED'] + HEXDUMP_NAMED]
+# ids that differ from a named id in one bit (high bits, letter case)
+lookalike_id = st.tuples(st.sampled_from(NAMED_IDS), st.sampled_from([0x8000, 0x0080, 0x2000, 0x0020, 0x0100, 0x0001])
+                         ).map(lambda t: t[0] ^ t[1])
+
 unknown_id = st.one_of(
-    uint(16),
+    uint(16), lookalike_id,
     st.tuples(st.integers(0x41, 0x5A), st.integers(0x41, 0x5A)).map(lambda t: (t[0] << 8) | t[1]),
-).map(lambda v: v if v not in TYPED_IDS else 0x5A5A)
+).map(lambda v: v if v not in TYPED_IDS else 0x5A5A)  # PH/UH/typed ids are modelled as typed sections
 
 
 @st.composite
